@@ -391,7 +391,8 @@ def dataclass_node_factory(
             f"{DataclassNode} expected to get a dataclass but {dataclass} is not "
             f"type `type`."
         )
-    dataclass = as_dataclass(dataclass)
+    if "__dataclass_fields__" not in dataclass.__dict__:
+        dataclass = as_dataclass(dataclass)
     # Classes inheriting from a dataclass will pass the `dataclasses.is_dataclass` test
     # BUT they won't themselves _act_ as dataclass definitions! I.e. if you introduce
     # new fields in a sub-dataclass, or update defaults, this won't register _unless_
